@@ -112,6 +112,20 @@ EXTRA2 = {
  "C20": " Clause layouts: every utility x argument x memory layout / dtype (spike times as int32 / uint64 ...), arguments untouched, results not aliasing arguments.",
 }
 
+EXTRA3 = {
+ "C02": " Clause reader-options: ignore_warnings x sort x metadata announcing more / fewer samples than the flat or compressed data hold.",
+ "C03": " Clause call-histories: every sequence (4 calls quick / 5 thorough) of process(), process(overwrite=True), new converter object and init_params() after a first split; files checked after every call.",
+ "C06": " Beyond the orientation cap the conflict orientations are enumerated deviation-bounded (0, 1, 2 ... pairs against the default order, and mirrored) instead of being given up; the evidence reports the levels completed.",
+ "C08": " Also: the original-index attribute of split geometries (sorted / unsorted, through geometry_from_meta and through the Reader) and the library's restriction function for every shank of the probe, present or not.",
+ "C10": " Also: step thresholds and analog mode on 2-D arrays along either axis (all trains over {0,1,2}).",
+ "C12": " Clause call-histories: every call sequence on converter objects after a first conversion; the LF stream on disk checked after every call.",
+ "C13": " Also: padding value (number of channels / -1) x NaN row (added by the call / carried by the array); spike trains with silent stretches longer than a chunk at the start, middle and end.",
+ "C14": " Clause rates: 11 sampling rates x 7 recovery durations, peaks at every position.",
+ "C15": " Also: label vectors without a single good channel (all 3^6 vectors over dead / noisy / outside on the first six sites, the rest outside or dead; bad tips below an outside block).",
+ "C17": " Clause object-histories: every sequence (depth 3 / 4) of complete, abandoned, nested and failing passes, time scales, valid windows, splicing and slices on one generator object.",
+ "C20": " Also: svd_denoise_npx at full rank for every split of 2..48 (and 96, 385) channels into collections of unequal sizes; label vectors with as many values as traces.",
+}
+
 ALL = ["C%02d" % i for i in range(1, 21)]
 PENDING_REASON = "check not built yet in this round (planned, see DESIGN.md section 3); no claim is made until it is"
 
@@ -128,7 +142,7 @@ def main():
             "evidence_file": "/verif/evidence/%s.json" % pid,
             "replay_cmd_template": "%s /verif/run.py %s --replay {path}" % (PY, pid),
             "engine": c["engine"],
-            "level_claimed": {"category": c.get("category", "model_checking"), "text": c["text"] + EXTRA.get(pid, "") + EXTRA2.get(pid, ""), "design_ref": "DESIGN.md " + c["ref"]},
+            "level_claimed": {"category": c.get("category", "model_checking"), "text": c["text"] + EXTRA.get(pid, "") + EXTRA2.get(pid, "") + EXTRA3.get(pid, ""), "design_ref": "DESIGN.md " + c["ref"]},
             "level_note": c["note"],
             "technique": c["technique"],
         })
